@@ -180,6 +180,7 @@ def run(cmd, **kw):
 
 
 def prune_cache(sub, keep):
+    keep = max(keep, int(os.environ.get('VERIF_CACHE_KEEP', '0')))   # tools_round.py checks several mutated trees at once: they must not prune each other's objects
     d = os.path.join(CACHE, sub)
     if not os.path.isdir(d):
         return
